@@ -1347,7 +1347,15 @@ class Engine(object):
       # consistent internally as well as with the clients and database outside of the sandbox
       # (which won't see any changes in case of an error).
       log.info("Failed to apply useractions; reverting: %r", e)
+      # Values calculated while applying the actions (e.g. when an action looked records up by a
+      # column that was due for recalculation) are not among the undo actions yet. Turn them into
+      # actions first, so that they get reverted along with everything else.
+      self._flush_changes()
+      self.out_actions.flush_calc_changes()
       self._undo_to_checkpoint(checkpoint)
+      # All data columns are back to the values they had; reverting must not make their trigger
+      # formulas run (formula columns do get recalculated, and arrive at the values they had).
+      self._forget_data_column_recalcs()
 
       # Check schema consistency again. If this fails, something is really wrong (we tried to go
       # back to a good state but failed). We'll just report it loudly.
@@ -1537,6 +1545,16 @@ class Engine(object):
     # We produce a tuple of lengths: one for each of the properties of out_actions ActionObj.
     aobj = self.out_actions
     return (len(aobj.calc), len(aobj.stored), len(aobj.undo), len(aobj.retValues))
+
+  def _forget_data_column_recalcs(self):
+    """
+    Forgets any pending recalculation of data columns (those with trigger formulas).
+    """
+    for node in list(self.recompute_map):
+      table = self.tables.get(node.table_id)
+      col = table.all_columns.get(node.col_id) if table else None
+      if col is not None and not col.is_formula():
+        del self.recompute_map[node]
 
   def _undo_to_checkpoint(self, checkpoint):
     """
